@@ -766,40 +766,35 @@ func (self Node) Gets(keys []PathNode, opts *Options) (err error) {
 	}
 	need := len(keys)
 	for count := 0; it.HasNext() && count < need; {
-		for j, id := range keys {
-			if id.Path.Type() == PathStrKey {
-				exp := id.Path.str()
-				_, s, v, e := it.NextStr(opts.UseNativeSkip)
-				if it.Err != nil {
-					return errValue(meta.ErrRead, "", it.Err)
+		// read every pair once, then match it against all the wanted keys
+		_, kb, v, e := it.NextBin(opts.UseNativeSkip)
+		if it.Err != nil {
+			return errValue(meta.ErrRead, "", it.Err)
+		}
+		for j := range keys {
+			id := &keys[j]
+			hit := false
+			switch id.Path.Type() {
+			case PathStrKey:
+				hit = it.kt == thrift.STRING && len(kb) >= 4 && string(kb[4:]) == id.Path.str()
+			case PathIntKey:
+				switch it.kt {
+				case thrift.I08:
+					hit = int(thrift.BinaryEncoding{}.DecodeByte(kb)) == id.Path.int()
+				case thrift.I16:
+					hit = int(thrift.BinaryEncoding{}.DecodeInt16(kb)) == id.Path.int()
+				case thrift.I32:
+					hit = int(thrift.BinaryEncoding{}.DecodeInt32(kb)) == id.Path.int()
+				case thrift.I64:
+					hit = int(thrift.BinaryEncoding{}.DecodeInt64(kb)) == id.Path.int()
 				}
-				if exp == s {
-					p := &keys[j]
-					count += 1
-					p.Node = self.slice(v, e, et)
-				}
-			} else if id.Path.Type() == PathIntKey {
-				exp := id.Path.int()
-				_, s, v, e := it.NextInt(opts.UseNativeSkip)
-				if it.Err != nil {
-					return errValue(meta.ErrRead, "", it.Err)
-				}
-				if exp == s {
-					p := &keys[j]
-					count += 1
-					p.Node = self.slice(v, e, et)
-				}
-			} else {
-				exp := id.Path.bin()
-				_, s, v, e := it.NextBin(opts.UseNativeSkip)
-				if it.Err != nil {
-					return errValue(meta.ErrRead, "", it.Err)
-				}
-				if bytes.Equal(exp, s) {
-					p := &keys[j]
-					count += 1
-					p.Node = self.slice(v, e, et)
-				}
+			case PathBinKey:
+				hit = bytes.Equal(id.Path.bin(), kb)
+			}
+			if hit {
+				count += 1
+				id.Node = self.slice(v, e, et)
+				break
 			}
 		}
 	}
